@@ -168,6 +168,15 @@ class ExprGen(object):
                 return "en == Ee.%s" % r.choice(["AA", "BB"])
             return r.choice(["true", "false"])
         k = r.random()
+        if k < 0.06:
+            # mixed-signedness comparison at the 64-bit boundary: must be rejected by the gate
+            wide = [l.name for l in self.leaves if l.kind == "UInt" and l.bits >= 64] + ["9223372036854775808", "18446744073709551615"]
+            signed = [l.name for l in self.leaves if l.kind == "Int"] + ["(0 - %s)" % l.name for l in self.leaves if l.kind == "UInt" and l.bits <= 16]
+            if signed:
+                a, b = r.choice(wide), r.choice(signed)
+                if r.random() < 0.5:
+                    a, b = b, a
+                return "(%s %s %s)" % (a, r.choice(["==", "!=", "<", "<=", ">", ">="]), b)
         if k < 0.5:
             return "(%s %s %s)" % (self.int_expr(depth - 1), r.choice(["==", "!=", "<", "<=", ">", ">="]), self.int_expr(depth - 1))
         if k < 0.8:
@@ -396,6 +405,23 @@ def check_module(stats, rnd, text, leaves, bools, tight, n_random):
         stats.case([et, text], nonconst and leaves_in >= 2, ["node:" + (e.which_expression if e.which_expression != "function" else str(e.function.function).split(".")[-1]), t], sample={"expression": et, "inferred": (dict(min=e.type.integer.minimum_value, max=e.type.integer.maximum_value, mod=e.type.integer.modulus, rem=e.type.integer.modular_value) if t == "integer" else {"value": e.type.boolean.value if e.type.boolean.has_field("value") else None}), "values_seen": sorted(set(int(v) for v in vals))[:6]})
         if nfail > 6:
             continue
+        # 64-bit gate by evaluation: run-time operators only (comparisons included)
+        def gate():
+            nonlocal nfail
+            if e.which_expression == "function" and nonconst and runtime.get(id(e)) and not ir_util.is_constant_type(e.type):
+                try:
+                    group = list(vals)
+                    for a in e.function.args:
+                        if a.type.which_type == "integer":
+                            group += [ev.ev(a, rho) for rho in envs]
+                    gmin, gmax = min(group), max(group)
+                    if not ((I64[0] <= gmin and gmax <= I64[1]) or (U64[0] <= gmin and gmax <= U64[1])):
+                        nfail += 1
+                        stats.fail({"kind": "64-bit-gate-unsound", "node": node_kind(e)}, dict(case, expression=et), "operands and result of %s span [%d, %d], which fits neither int64 nor uint64" % (et, gmin, gmax))
+                except Unknown:
+                    pass
+
+        gate()
         if t == "boolean":
             if e.type.boolean.has_field("value"):
                 bad = [v for v in vals if bool(v) != e.type.boolean.value]
@@ -432,19 +458,6 @@ def check_module(stats, rnd, text, leaves, bools, tight, n_random):
                 if (up and max(avals) > claimed) or (not up and min(avals) < claimed):
                     nfail += 1
                     stats.fail({"kind": "bound-function-not-a-bound", "which": "upper" if up else "lower"}, dict(case, expression=et), "%s = %s but the argument takes value %d" % (et, claimed, max(avals) if up else min(avals)))
-            except Unknown:
-                pass
-        # 64-bit gate by evaluation: run-time operators only
-        if e.which_expression == "function" and nonconst and runtime.get(id(e)) and not ir_util.is_constant_type(e.type):
-            try:
-                group = list(vals)
-                for a in e.function.args:
-                    if a.type.which_type == "integer":
-                        group += [ev.ev(a, rho) for rho in envs]
-                gmin, gmax = min(group), max(group)
-                if not ((I64[0] <= gmin and gmax <= I64[1]) or (U64[0] <= gmin and gmax <= U64[1])):
-                    nfail += 1
-                    stats.fail({"kind": "64-bit-gate-unsound", "node": node_kind(e)}, dict(case, expression=et), "operands and result of %s span [%d, %d], which fits neither int64 nor uint64" % (et, gmin, gmax))
             except Unknown:
                 pass
     # tightness on the variable-once fragment
